@@ -115,7 +115,15 @@ type lockAnalyzer struct {
 }
 
 func (la *lockAnalyzer) exprKey(e ast.Expr) string {
-	return types.ExprString(ast.Unparen(e))
+	e = ast.Unparen(e)
+	if sel, ok := e.(*ast.SelectorExpr); ok {
+		if s := la.pkg.TypesInfo.Selections[sel]; s != nil && s.Kind() == types.FieldVal {
+			if v, ok := s.Obj().(*types.Var); ok {
+				return la.exprKey(sel.X) + "." + canonField(v)
+			}
+		}
+	}
+	return types.ExprString(e)
 }
 
 // mutexCall classifies x.Lock() etc. Returns acquire?, key.
@@ -535,7 +543,7 @@ func (c *Ctx) fieldVar(rel, spec string) *types.Var {
 	if p == nil || i < 0 {
 		return nil
 	}
-	tn, ok := p.Types.Scope().Lookup(spec[:i]).(*types.TypeName)
+	tn, ok := p.Types.Scope().Lookup(c.ActualType(rel, spec[:i])).(*types.TypeName)
 	if !ok {
 		return nil
 	}
@@ -544,7 +552,7 @@ func (c *Ctx) fieldVar(rel, spec string) *types.Var {
 		return nil
 	}
 	for j := 0; j < st.NumFields(); j++ {
-		if st.Field(j).Name() == spec[i+1:] {
+		if canonField(st.Field(j)) == spec[i+1:] {
 			return st.Field(j)
 		}
 	}
